@@ -60,6 +60,22 @@ def history(rnd, hist_id, length):
     for nm in range(rnd.randint(0, 4) + (3 if shape == 'consts' else 0)):
         ops.append({'op': 'model.op', 'm': m, 'k': 'addelem', 'uid': {'idx': rnd.choice(bases)}, 'name': f'el{nm}'})
     plan = [None] * len(ops)
+    if shape != 'consts' and rnd.random() < 0.3:
+        # an edit that changes nothing but an index of a projection / filter (same tree shape, same operands)
+        sidx = 2
+        first, second = rnd.choice([('Pr1($[%d])', 'Pr2($[%d])'), ('Pr2($[%d])', 'Pr1($[%d])'), ('D{ξ∈$[%d] | pr1(ξ)=pr1(ξ)}', 'D{ξ∈$[%d] | pr2(ξ)=pr1(ξ)}'),
+                                    ('Pr1,2($[%d])', 'Pr2,1($[%d])'), ('Fi1[$[0]]($[%d])', 'Fi2[$[0]]($[%d])')])
+        motif = [{'op': 'model.op', 'm': m, 'k': 'setstruct', 'uid': {'idx': sidx}, 'value': {'s': [{'tuplev': [1, 2]}, {'tuplev': [2, 1]}, {'tuplev': [1, 1]}]}},
+                 {'op': 'model.op', 'm': m, 'k': 'emplace', 'type': 'term', 'def': first % sidx},
+                 {'op': 'model.op', 'm': m, 'k': 'emplace', 'type': 'term', 'def': 'card($[-1])'},
+                 {'op': 'model.op', 'm': m, 'k': 'recalcall'},
+                 {'op': 'model.op', 'm': m, 'k': 'setexpr', 'uid': {'idx': -2}, 'text': second % sidx},
+                 {'op': 'model.op', 'm': m, 'k': 'calculate', 'uid': {'idx': -1}}]
+        for op in motif:
+            ops.append(op)
+            plan.append('op')
+            ops.append({'op': 'model.snap', 'm': m, 'rebuild': True})
+            plan.append('snap')
     for _ in range(length):
         r = rnd.random()
         op = {'op': 'model.op', 'm': m}
